@@ -252,6 +252,7 @@ int main(int argc, char** argv)
     uint64_t n_hist = 0, n_states_enum = 0, n_selfchecked = 0, n_crash_hist = 0;
     bool cut_short = false;
     int completed_depth = 0, completed_crash_depth = 0;
+    bool torn_done = false;
     uint64_t ops_logged = 0;
 
     // recorder determinism gate: the same history recorded twice must give the same op log
@@ -276,9 +277,13 @@ int main(int argc, char** argv)
         sfs::remove_all(d);
     }
 
-    for (int depth = 1; depth <= max_depth && !cut_short; depth++) {
+    // levels 1..max_depth: breadth-first exploration; level max_depth+1 (thorough): the torn-write variants of the crash
+    // states of every single operation (done last: they are the least informative states)
+    for (int depth = 1; depth <= max_depth + 1 && !cut_short; depth++) {
+        const bool torn_pass = depth == max_depth + 1;
         std::vector<History> todo;
         if (!replay_hist.empty()) { if (depth > 1) break; todo.push_back(replay_hist); }
+        else if (torn_pass) { if (!torn_depth) break; for (int op = 0; op < N_OPS; op++) todo.push_back(History{op}); }
         else for (auto& h : frontier) for (int op = 0; op < N_OPS; op++) { History n = h; n.push_back(op); todo.push_back(n); }
         std::vector<History> next_frontier;
         const size_t BATCH = 52;
@@ -327,19 +332,22 @@ int main(int argc, char** argv)
                     }
                     if (o.path.rfind("OP ", 0) == 0) r.last_op_mark = k;
                 }
-                n_hist++;
-                bool crash = !replay_hist.empty() || (big ? thorough_crash(r.h) : quick_crash.count(HistStr(r.h)) > 0);
-                bool torn = !replay_hist.empty() || depth <= torn_depth;
+                n_hist += !torn_pass;
+                bool crash = !replay_hist.empty() || torn_pass || (big ? thorough_crash(r.h) : quick_crash.count(HistStr(r.h)) > 0);
+                bool torn = !replay_hist.empty() || torn_pass;
                 vxc::State all;
                 all.j = r.log.ops.size(); all.k = r.log.ops.size(); all.mode = "clean";
-                per_hist[i].push_back({i, all, 0, true});
+                if (!torn_pass) per_hist[i].push_back({i, all, 0, true});
                 if (crash) {
-                    n_crash_hist++;
+                    n_crash_hist += !torn_pass;
                     size_t from = wc::StableFrom(r.log, r.last_op_mark);
                     size_t en = 0;
                     // order: power-loss states losing the most work first, interleaved with kill states from the latest crash point backwards
                     std::vector<wc::PickedState> pl, kl;
-                    for (auto& ps : wc::DistinctStates(r.log, from, initial, true, true, torn, &en)) (ps.st.mode == "kill" ? kl : pl).push_back(ps);
+                    for (auto& ps : wc::DistinctStates(r.log, from, initial, true, true, torn, &en)) {
+                        if (torn_pass && ps.st.torn_index < 0) continue; // already reloaded at level 1
+                        (ps.st.mode == "kill" ? kl : pl).push_back(ps);
+                    }
                     std::stable_sort(pl.begin(), pl.end(), [](const wc::PickedState& a, const wc::PickedState& b) { return a.st.k - a.st.j > b.st.k - b.st.j; });
                     std::stable_sort(kl.begin(), kl.end(), [](const wc::PickedState& a, const wc::PickedState& b) { return a.st.k > b.st.k; });
                     for (size_t x = 0; x < std::max(pl.size(), kl.size()); x++) {
@@ -407,11 +415,12 @@ int main(int argc, char** argv)
             for (size_t i = 0; i < nb; i++) {
                 std::error_code ec;
                 sfs::remove_all(sfs::path(runs[i].dir).parent_path(), ec);
-                if (!cut_short && seen_keys.insert(runs[i].key).second) next_frontier.push_back(runs[i].h);
+                if (!cut_short && !torn_pass && seen_keys.insert(runs[i].key).second) next_frontier.push_back(runs[i].h);
             }
         }
-        if (!cut_short) { completed_depth = depth; if (depth <= crash_depth && big) completed_crash_depth = depth; }
-        frontier = std::move(next_frontier);
+        if (!cut_short && !torn_pass) { completed_depth = depth; if (depth <= crash_depth && big) completed_crash_depth = depth; }
+        if (!cut_short && torn_pass) torn_done = true;
+        if (!torn_pass) frontier = std::move(next_frontier);
     }
     recorder.stop();
 
@@ -423,6 +432,7 @@ int main(int argc, char** argv)
     E.set("distinct_wallet_states", (uint64_t)seen_keys.size());
     E.set("completed_history_depth", (uint64_t)completed_depth);
     E.set("completed_crash_depth", (uint64_t)completed_crash_depth);
+    E.set("torn_write_pass_completed", torn_done ? "true" : "false");
     E.set("ops_logged", ops_logged);
     E.set("recorder_runs_verified", n_selfchecked);
     E.set("crash_states_enumerated", n_states_enum);
@@ -438,7 +448,7 @@ int main(int argc, char** argv)
              std::to_string(max_depth) + ", merged when the DB records, every descriptor manager's (next_index, range_end, max_cached_index) and the set of handed-out addresses coincide; "
              "per history the complete op log (clean close) and, " + (big ? std::string("for every single operation and every pair {a b} with a an address request and b the same request, X, or V on the same change descriptor") : std::string("for the histories {R0 R0} {C3 C3} {R3 X} {C0 V0}")) +
              ", every crash state with crash point in the last operation (kill: every op-log prefix" +
-             (torn_depth ? ", torn last write 1/half/n-1 bytes to depth " + std::to_string(torn_depth) : std::string()) +
+             (torn_depth ? std::string(", and in a last pass the torn last writes (1/half/n-1 bytes) of every single operation") : std::string()) +
              "; power loss: every (cut, crash point) with the synced ops surviving), deduplicated by materialised bytes, each reloaded in a fresh process that requests 3 receiving + 3 change addresses of each type. "
              "evaluations = reloads judged; distinct_nontrivial = distinct disk states reloaded that had at least one address acknowledged before the crash point / restart";
     E.assume("a crash point inside an earlier operation of a history is covered as the last-operation crash point of the shorter history (the recorder is deterministic: fixed keys, mock time, fixed PRNG stream, canonical process image; checked by recording one history twice)");
